@@ -98,6 +98,20 @@ def run(ctx):
                                            "req": [[2, 3, 4], [2, 3], [3, 4, 5], [3, 5], [2, 4], [0, 1], [2], [4]],
                                            "func": ["sum", "count", "nanmax", "nanmean", "nanfirst", "argmax"], "fill": [[0, 1], [-1, 1], [0, 0]],
                                            "mode": ["eager", "map-reduce", "cohorts", None], "vsel": [0, 1]}, build_range))
+    # boolean data: the user's fill must arrive verbatim (a NaN fill cannot be held by bool: the result widens)
+    def build_bool(vals, codes, req, func, fill, mode):
+        present = {c for c in codes if c >= 0}
+        c = {"func": func, "vals": vals, "dtype": "b1", "codes": codes, "label_kind": "int", "req": req, "sort": True, "fill": fill, "min_count": None, "ddof": None}
+        if fill is None and not set(req) <= present:
+            return None
+        if mode != "eager":
+            c.update(method=mode, chunks=[2, 2])
+        return c
+
+    spaces.append(gen.Space("bool", {"vals": [[gen.iv(1), gen.iv(0), gen.iv(1), gen.iv(1)], [gen.iv(0), gen.iv(0), gen.iv(1), gen.iv(0)]],
+                                     "codes": [[0, 1, 0, 1], [1, 1, 0, 0], [0, 0, 0, 0], [2, 0, 2, 0]], "req": [[0, 1], [0, 1, 2], [1, 3], [3]],
+                                     "func": ["max", "min", "nanmax", "nanfirst", "nanlast", "any", "all", "sum", "count"],
+                                     "fill": [[0, 0], [0, 1], [1, 1], [-1, 1], None], "mode": ["eager", "map-reduce", "cohorts", None]}, build_bool))
     budget = 30000 if ctx.tier == "quick" else 500000
     cases = []
     for sp in spaces:
